@@ -12,6 +12,7 @@ import (
 	"net"
 	"runtime"
 	"strings"
+	"sync/atomic"
 	"syscall"
 	"time"
 
@@ -157,7 +158,12 @@ func (engine *Engine) DialAsync(network, addr string, onConnected func(*Conn, er
 //
 //go:norace
 func (engine *Engine) DialAsyncTimeout(network, addr string, timeout time.Duration, onConnected func(*Conn, error)) error {
+	var called int32
 	h := func(c *Conn, err error) {
+		// the outcome is reported once, by the poller or by the dial timer.
+		if !atomic.CompareAndSwapInt32(&called, 0, 1) {
+			return
+		}
 		if err == nil {
 			_ = c.SetWriteDeadline(time.Time{})
 		}
@@ -255,7 +261,14 @@ func (engine *Engine) DialAsyncTimeout(network, addr string, timeout time.Durati
 			h(c, nil)
 		})
 	} else if timeout > 0 {
-		_ = c.setDeadline(&c.wTimer, ErrDialTimeout, time.Now().Add(timeout))
+		c.mux.Lock()
+		if !c.closed {
+			c.wTimer = engine.AfterFunc(timeout, func() {
+				h(c, ErrDialTimeout)
+				_ = c.closeWithError(ErrDialTimeout)
+			})
+		}
+		c.mux.Unlock()
 	}
 
 	return nil
